@@ -17,9 +17,13 @@ FOCUSES = [
     ("MC_Flow", "flow", {}, 1, 2),
     ("MC_Loops", "loops-single", {"Variant": '"single"'}, 1, 1),
     ("MC_Loops", "loops-pairs", {"Variant": '"pairs"'}, 2, 3),
+    ("MC_Loops", "loops-triples", {"Variant": '"triples"'}, 3, 4),
+    ("MC_Bool", "bool", {}, 1, 2),
     ("MC_Loops", "loops-nest", {"Variant": '"nest"'}, 2, 2),
-    ("MC_Trim", "trim-markers", {"Variant": '"markers"'}, 3, 5),
-    ("MC_Trim", "trim-blank", {"Variant": '"blank"'}, 3, 5),
+    ("MC_Scopes", "scopes", {}, 2, 3),
+    ("MC_Trim", "trim-markers", {"Variant": '"markers"'}, 3, 4),
+    ("MC_Trim", "trim-capture", {"Variant": '"capture"'}, 4, 5),
+    ("MC_Trim", "trim-blank", {"Variant": '"blank"'}, 4, 5),
 ]
 
 _TAG = re.compile(r"\{%[-+~]?\s*(\w+)")
@@ -27,7 +31,7 @@ _TAG = re.compile(r"\{%[-+~]?\s*(\w+)")
 
 def constructs(rec) -> str:
     names = set()
-    for _, text in rec["templates"]:
+    for _, text in rec["templates"][:1]:
         names.update(_TAG.findall(text))
         if "{{" in text:
             names.add("output")
